@@ -20,7 +20,7 @@ TIMEOUTS = [0.5, 1.0, 2.0, 5.0]
 def plan(tier: str) -> dict:
     return {
         "runs": 8000 if tier == "quick" else 400000,
-        "budget": 70 if tier == "quick" else 1500,
+        "budget": 70 if tier == "quick" else 900,
         "cases": [],
         "chunk": 40,
         "rule": "Session histories on HTTP/1.1 and HTTP/2 connections: requests (fast, slow applications, "
@@ -246,11 +246,40 @@ def run(tape: Tape, params: dict) -> Outcome:
         script.start_at(0.1 + 0.011 * ci)
         conns.append(info)
         tape.span_end()
+    ws: Optional[Dict[str, Any]] = None
+    if tape.chance(1, 3, "ws.conn"):
+        # an open WebSocket is not an idle connection, however long nothing is said on it
+        from ..peers import ws as wsp
+        from ..wsgen import WSSession, app_ws_echo, build_ws_script
+
+        carrier = ["h1", "h2"][tape.draw(2, "ws.carrier")]
+        sess = WSSession(carrier, b"wsk")
+        host.programs[b"wsk"] = [("call", app_ws_echo())]
+        pause = tape.choice([T / 2, T + 0.25, 3 * T], "ws.pause")
+        ending = tape.choice(["close-frame", "tcp", "rst"], "ws.ending")
+        ops: List[tuple] = [("frames", wsp.frame(wsp.OP_TEXT, b"first")),
+                            ("wait", lambda sc: sess.ws is not None and len(sess.ws.messages) >= 1, 2.0),
+                            ("mark", "open"), ("sleep", pause), ("mark", "after-pause"),
+                            ("frames", wsp.frame(wsp.OP_TEXT, b"second")),
+                            ("wait", lambda sc: sess.ws is not None and len(sess.ws.messages) >= 2, 2.0),
+                            ("mark", "echoed")]
+        if ending == "close-frame":
+            ops += [("close", 1000, b""), ("wait", lambda sc: sess.ws is not None and sess.ws.close is not None, 2.0),
+                    ("mark", "closing"), ("sleep", 0.05), ("tcpclose",)]
+        elif ending == "tcp":
+            ops += [("mark", "closing"), ("tcpclose",)]
+        else:
+            ops += [("mark", "closing"), ("rst",)]
+        wscript = build_ws_script(world, tape, sess, b"/wsk", ops, None)
+        wscript.start_at(0.1 + 0.011 * len(conns))
+        ws = {"sess": sess, "script": wscript, "pause": pause, "ending": ending, "carrier": carrier}
     if trigger_at is not None:
         sim.at(trigger_at, world.trigger_shutdown)
         sim.fault("life.shutdown_at_phase")
     world.run(end_at=120.0)
     host.drain_leftovers()
+    if ws is not None:
+        _check_ws(world, host, ws, T, out)
     out.sample = {"worker": world.worker, "T": T, "trigger_at": trigger_at,
                   "conns": [{"proto": c.proto, "history": c.history, "loss": c.loss} for c in conns]}
     _check(world, host, conns, T, out)
@@ -375,6 +404,42 @@ def _check(world: World, host: AppHost, conns: List[ConnInfo], T: float, out: Ou
                 bad("fd-leak", f"conn {info.index}: socket still open after worker_serve returned", proto=info.proto)
     elif world.result in ("deadline", "quiescent"):
         out.notes.append(f"worker_serve ended with {world.result}")
+
+
+def _check_ws(world: World, host: AppHost, ws: Dict[str, Any], T: float, out: Outcome) -> None:
+    def bad(rule: str, msg: str, **key: Any) -> None:
+        out.violations.append(Violation(rule, msg, dict(key, worker=world.worker, proto="ws-" + ws["carrier"])))
+
+    script: Script = ws["script"]
+    sess = ws["sess"]
+    conn = script.conn
+    if conn is None or conn.accepted_at is None or sess.ws is None:
+        return
+    marks = script.marks
+    trigger = world.trigger_at
+    t_open = marks.get("open", (0, None))[1]
+    t_after = marks.get("after-pause", (0, None))[1]
+    t_closing = marks.get("closing", (0, None))[1]
+    closed = conn.client.server_closed_at
+    if t_open is None:
+        return
+    horizon = t_after if t_after is not None else t_open + ws["pause"]
+    if trigger is None or trigger > horizon + DELTA:
+        # nothing but silence happened between the first echo and the second message
+        if closed is not None and closed < horizon + EPS and (t_closing is None or closed < t_closing):
+            bad("ws-closed-while-open", f"the server closed an open WebSocket at {closed:.6f} after "
+                f"{closed - t_open:.3f}s of silence (keep_alive_timeout {T}, silence planned {ws['pause']})")
+        elif t_after is not None and "echoed" not in marks and (trigger is None or trigger > t_after + 2.0 + DELTA) \
+                and len(sess.ws.messages) < 2:
+            bad("ws-closed-while-open", f"a message sent after {ws['pause']}s of silence on an open WebSocket was "
+                f"never answered (server closed at {closed})")
+    # released once the WebSocket is over
+    h = world.handlers.get(conn.id)
+    if t_closing is not None and (trigger is None or trigger > t_closing + 1.0):
+        limit = t_closing + 0.05 + DELTA + 2 * conn.c2s_latency
+        if h is None or h[1] is None or h[1] > limit:
+            bad("handler-not-released", f"WebSocket ended ({ws['ending']}) at {t_closing:.6f} but the connection "
+                f"handler ended at {h[1] if h else None}", why="ws-end", cause="other")
 
 
 def _busy_at(busy: List[Tuple[float, float]], t: Optional[float]) -> bool:
